@@ -78,7 +78,7 @@ def chains(tier, rnd):
     out = []
     n = 260 if tier == "quick" else 4000
     for i in range(n):
-        shape = rnd.choice(["linear2", "linear3", "linear4", "diamond", "fanin", "rewrite", "star_unknown", "publish_then_reload", "same_cte_name"])
+        shape = rnd.choice(["linear2", "linear3", "linear4", "diamond", "fanin", "rewrite", "star_unknown", "publish_then_reload", "same_cte_name", "repeated_statement"])
         tables = {}  # table -> {col: set of (base table, base col)}
         stmts = []
         expect_star = []  # (statement index, target, source table, expected expanded columns)
@@ -143,6 +143,21 @@ def chains(tier, rnd):
             tables["db.m1"] = {"*": {("ext.events", "*")}}
             stmts.append(rnd.choice(["insert into db.m1 select * from ext.events", "create table db.m1 as select * from ext.events"]))
             derive("db.fin", "db.m1", "star")
+        elif shape == "repeated_statement":
+            # the very same statement text twice, the table it reads by star rebuilt with other columns in between
+            base_select("db.m1", "db.s1", cols1, "same")
+            stmts[-1] = "create table db.m1 as" + stmts[-1].split(" as", 1)[1] if stmts[-1].startswith("create view") else stmts[-1]
+            first_cols = list(tables["db.m1"])
+            stmts.append("insert into db.fin select * from db.m1")
+            expect_star.append((len(stmts) - 1, "db.fin", "db.m1", first_cols))
+            fin = {c: set(tables["db.m1"][c]) for c in first_cols}
+            stmts.append("create or replace table db.m1 as select y.d1, y.d2 from db.s2 y")
+            tables["db.m1"] = {"d1": {("db.s2", "d1")}, "d2": {("db.s2", "d2")}}
+            stmts.append("insert into db.fin select * from db.m1")
+            expect_star.append((len(stmts) - 1, "db.fin", "db.m1", ["d1", "d2"]))
+            for c in ("d1", "d2"):
+                fin.setdefault(c, set()).update({("db.s2", c)})
+            tables["db.fin"] = fin
         elif shape == "same_cte_name":
             # every statement calls its CTE (or derived table) 'base': the two are different relations with different columns
             c_a, c_b = cols1[0], cols1[1]
@@ -183,7 +198,7 @@ def chains(tier, rnd):
         # expected end-to-end pairs of the last target (from base columns)
         last = "db.fin"
         pairs = sorted([f"{t}.{c}", f"{last}.{col}"] for col, srcs in tables.get(last, {}).items() for t, c in srcs)
-        out.append({"sql": ";\n".join(stmts), "shape": shape, "expected_final_pairs": pairs, "expect_star": expect_star, "last": last,
+        out.append({"sql": ";\n".join(stmts) + (";" if i % 2 else ""), "shape": shape, "expected_final_pairs": pairs, "expect_star": expect_star, "last": last,
                     "tables": {t: sorted(cs) for t, cs in tables.items()}, "literal_middle": literal_middle})
     # two statements each selecting an unqualified column of the same name over different joins (KF-09 shape), with and without metadata
     for i in range(6 if tier == "quick" else 40):
@@ -208,7 +223,7 @@ def run(tier):
                 # (only for a table the script creates with CREATE TABLE AS / CREATE VIEW: an INSERT without column list into a table the provider
                 # knows is legitimately named by the catalog's columns, C13)
                 # (nor for a table rebuilt as a star copy of unknown columns: what it then consists of is not decided by the script)
-                if g["shape"] in ("same_unresolved_name_two_scopes", "rewrite", "star_unknown", "publish_then_reload", "same_cte_name") or "db.m1" not in g["tables"]:
+                if g["shape"] in ("same_unresolved_name_two_scopes", "rewrite", "star_unknown", "publish_then_reload", "same_cte_name", "repeated_statement") or "db.m1" not in g["tables"]:
                     continue
                 c["sql"] = c["sql"].replace("insert into db.m1 select x.", "create table db.m1 as select x.", 1)
                 c.update({"metadata": dict(MD, **{"db.m1": ["old1", "old2", "c1"]}), "provider": "dummy"})
